@@ -337,7 +337,9 @@ func check(o *runOpts) int {
 		return toolingFailure(o, err.Error())
 	}
 	defer os.RemoveAll(scratch)
-	workers := runtime.NumCPU() - 2
+	// each obligation races four solver processes: a quarter of the cores keeps every racer on a core of its own, so
+	// that the time limits mean the same thing in a large run as in a small one
+	workers := runtime.NumCPU() / 4
 	if workers < 2 {
 		workers = 2
 	}
@@ -356,6 +358,26 @@ func check(o *runOpts) int {
 		}(i, ob)
 	}
 	wg.Wait()
+	// second chance: an obligation that ran out of time while the machine was busy is tried again on its own, with the
+	// long time limit (a real failure costs this extra time; at most four obligations are retried)
+	retried := 0
+	for i, ob := range obls {
+		if ob.Cover || ob.Result == nil || ob.Result.Status == "unsat" || ob.Result.Status == "sat" || retried >= 4 {
+			continue
+		}
+		retried++
+		long := o.fullT * 2
+		if long < 30*time.Second {
+			long = 30 * time.Second
+		}
+		r2 := solve(scratch, len(obls)+i, ob.query, o.quickT, long, false)
+		r2.Attempts = append(append([]string{}, ob.Result.Attempts...), append([]string{"retry:"}, r2.Attempts...)...)
+		if r2.Status == "unsat" || r2.Status == "sat" {
+			ob.Result = r2
+		} else {
+			ob.Result.Attempts = r2.Attempts
+		}
+	}
 	solveSecs := time.Since(solveStart).Seconds()
 
 	rep := buildReport(o, cs, prog, units, obls, loadSecs, solveSecs, time.Since(start).Seconds())
